@@ -17,8 +17,10 @@ def char_history(rng, length):
     for _ in range(length):
         k = rng.randrange(nobj)
         x = rng.random()
-        if x < 0.45:
+        if x < 0.42:
             steps.append(dict(op="call", obj=k, paths=rng.choice([1, 2, 3])))
+        elif x < 0.45:
+            steps.append(dict(op="fault", obj=k, idx=rng.randint(1, 6), ival=rng.randrange(4)))
         elif x < 0.55:
             steps.append(dict(op="set", obj=k, field="len", ival=rng.choice([0, 1, 2, 5, 9])))
         elif x < 0.65:
@@ -61,6 +63,29 @@ def directed_char():
                   steps=[call(0), dict(op="set", obj=0, field="allow", ival=2), call(0), dict(op="set", obj=0, field="len", ival=2), call(0),
                          dict(op="set", obj=0, field="require", ival=4), call(0), dict(op="set", obj=0, field="exclude", ival=4), call(0)],
                   maxTrials=0, failRateOne=1, tag="set-then-call"))
+    # recipes of one "shape" (length, number of merely-allowed characters, sizes of the required sets) with different overlaps, also
+    # reached by a field update on one object
+    for a, b in (([o("ab"), o("cd")], [o("ab"), o("bc")]), ([o("ab"), o("bc")], [o("ab"), o("cd")]), ([o("ab"), o("cd"), o("ef")], [o("ab"), o("bc"), o("ca")])):
+        h.append(dict(kind="chist", objs=[dict(len=3, allowChars=o("xyz"), requireSets=a), dict(len=3, allowChars=o("xyz"), requireSets=b)],
+                      steps=[call(0), call(1), call(0), dict(op="set", obj=0, field="requireSets", sets=b), call(0), dict(op="set", obj=1, field="requireSets", sets=a), call(1)],
+                      maxTrials=0, failRateOne=1, tag="same-shape"))
+    # a call whose random source fails (at the first, a later, the last read; after 0-3 bytes) is recovered by the caller: the calls after
+    # it behave as if it had never been made
+    for at, got in ((1, 0), (1, 2), (2, 0), (3, 3), (7, 1)):
+        h.append(dict(kind="chist", objs=[dict(len=4, allow=6, require=4), dict(len=3, allowChars=o("abc"))],
+                      steps=[call(0), call(1), dict(op="fault", obj=0, idx=at, ival=got), call(0), call(1), dict(op="fault", obj=1, idx=1, ival=got), call(1), call(0)],
+                      maxTrials=0, failRateOne=1, tag="call-after-failed-call"))
+    return h
+
+
+def directed_wl():
+    words = [o(w) for w in ("one", "two", "three", "kettő")]
+    call = lambda k: dict(op="call", obj=k, paths=2)
+    h = []
+    for at, got in ((1, 0), (2, 3), (4, 1)):
+        h.append(dict(kind="whist", words=words, wobjs=[dict(words=[], nolist=0, len=3, cap="random", sep="SFDigits1", sepChar=[]),
+                                                        dict(words=[], nolist=0, len=2, cap="one", sep="char", sepChar=o("-"))],
+                      steps=[call(0), call(1), dict(op="fault", obj=0, idx=at, ival=got), call(0), call(1)], maxTrials=0, failRateOne=0, tag="wl-call-after-failed-call"))
     return h
 
 
@@ -126,7 +151,7 @@ def run_hist(ctx, hists, name):
     for p in procs:
         rc_, o_, e = ctx.wait(p)
         if p.returncode != 0:
-            raise Undecided("hist driver failed: " + (e or o_)[-1500:])
+            raise Undecided("hist driver failed: " + (e or o_)[:1200] + "\n...\n" + (e or o_)[-1500:])
     return [f for f in cf if os.path.getsize(f) > 0], [f for f in wf if os.path.getsize(f) > 0]
 
 
@@ -155,8 +180,12 @@ def run(ctx):
     r = ctx.tlc("Api", "MC_Api_hist_cache.cfg", workers=4)
     if r["violated"] != "ResultIsFunctionOfFields":
         raise Undecided("non-vacuity witness failed: cached derived fields should violate ResultIsFunctionOfFields in the model")
-    ctx.cover["non_vacuity"] = "with CacheDerived/PointerReceiver = TRUE TLC finds a history whose result reflects stale fields"
-    hists = directed_char() + [char_history(rng, rng.randint(12, 40 if quick else 60)) for _ in range(30 if quick else 500)]
+    r = ctx.tlc("Api", "MC_Api_hist_lock.cfg", workers=4)
+    if r["violated"] != "NoCallBlocked":
+        raise Undecided("non-vacuity witness failed: a lock left held by a failed call should block a later call in the model")
+    ctx.cover["non_vacuity"] = ("with CacheDerived/PointerReceiver = TRUE TLC finds a history whose result reflects stale fields; with GlobalLock = TRUE "
+                                "a history in which a failed call blocks the next one")
+    hists = directed_char() + directed_wl() + [char_history(rng, rng.randint(12, 40 if quick else 60)) for _ in range(30 if quick else 500)]
     hists += [wl_history(rng, rng.randint(10, 30)) for _ in range(16 if quick else 250)]
     th, total = tlc_histories(ctx, rng, 200 if quick else 100000)
     hists += th
